@@ -8,7 +8,7 @@ import CtyModel.Lemmas.TyEq
 namespace CtyModel
 open Value
 
-theorem equalsPre_known (ta tb : Ty) (a b : Payload) (ha : a.isKnown = true) (hb : b.isKnown = true) :
+theorem equalsPre_of_known (ta tb : Ty) (a b : Payload) (ha : a.isKnown = true) (hb : b.isKnown = true) :
     equalsPre ⟨ta, a⟩ ⟨tb, b⟩ = .ok (if a.isNull && b.isNull then some (boolVal true)
       else if a.isNull || b.isNull then some (boolVal false) else none) := by
   simp [equalsPre, Value.isNull, Value.isKnown, definitelyNotNull, ha, hb]
@@ -16,7 +16,7 @@ theorem equalsPre_known (ta tb : Ty) (a b : Payload) (ha : a.isKnown = true) (hb
 
 /-- a member the bridge lemma applies to, with the fuel that suffices for it -/
 structure Good (t : Ty) (p : Payload) (fuel : Nat) : Prop where
-  wf : p.wf t = true
+  wf : p.shaped t = true
   known : p.whollyKnown = true
   nomark : p.containsMarked = false
   depth : p.depth ≤ fuel
@@ -30,23 +30,23 @@ def GoodZip (fuel : Nat) : List Ty → List Payload → Prop
   | t :: ts, x :: xs => Good t x fuel ∧ GoodZip fuel ts xs
   | _, _ => False
 
-theorem goodAll_of {e : Ty} {fuel : Nat} : ∀ {xs : List Payload}, Payload.wfAll e xs = true →
+theorem goodAll_of {e : Ty} {fuel : Nat} : ∀ {xs : List Payload}, Payload.shapedAll e xs = true →
     Payload.whollyKnownL xs = true → Payload.containsMarkedL xs = false → Payload.depthL xs ≤ fuel →
     GoodAll e fuel xs
   | [], _, _, _, _ => trivial
   | x :: xs, hw, hk, hm, hd => by
-    simp only [Payload.wfAll, Payload.whollyKnownL, Payload.containsMarkedL, Payload.depthL,
+    simp only [Payload.shapedAll, Payload.whollyKnownL, Payload.containsMarkedL, Payload.depthL,
       Bool.and_eq_true, Bool.or_eq_false_iff] at hw hk hm hd
     exact ⟨⟨hw.1, hk.1, hm.1, by omega⟩, goodAll_of hw.2 hk.2 hm.2 (by omega)⟩
 
-theorem goodZip_of {fuel : Nat} : ∀ {ts : List Ty} {xs : List Payload}, Payload.wfZip ts xs = true →
+theorem goodZip_of {fuel : Nat} : ∀ {ts : List Ty} {xs : List Payload}, Payload.shapedZip ts xs = true →
     Payload.whollyKnownL xs = true → Payload.containsMarkedL xs = false → Payload.depthL xs ≤ fuel →
     GoodZip fuel ts xs
   | [], [], _, _, _, _ => trivial
-  | [], _ :: _, hw, _, _, _ => by simp [Payload.wfZip] at hw
-  | _ :: _, [], hw, _, _, _ => by simp [Payload.wfZip] at hw
+  | [], _ :: _, hw, _, _, _ => by simp [Payload.shapedZip] at hw
+  | _ :: _, [], hw, _, _, _ => by simp [Payload.shapedZip] at hw
   | t :: ts, x :: xs, hw, hk, hm, hd => by
-    simp only [Payload.wfZip, Payload.whollyKnownL, Payload.containsMarkedL, Payload.depthL,
+    simp only [Payload.shapedZip, Payload.whollyKnownL, Payload.containsMarkedL, Payload.depthL,
       Bool.and_eq_true, Bool.or_eq_false_iff] at hw hk hm hd
     exact ⟨⟨hw.1, hk.1, hm.1, by omega⟩, goodZip_of hw.2 hk.2 hm.2 (by omega)⟩
 
@@ -65,7 +65,7 @@ def RecOk (rec : EqRec) (fuel : Nat) : Prop :=
   ∀ (t : Ty) (x y : Payload), t.wf = true → t.plain = true → Good t x fuel → Good t y fuel →
     rec t x t y = .ok (boolVal (rawB t x y))
 
-theorem eqAccOf_boolVal (r : Bool) : eqAccOf (.ok (boolVal r)) = .ok (if r then .t else .f) := by
+theorem eqAccOf_ok_boolVal (r : Bool) : eqAccOf (.ok (boolVal r)) = .ok (if r then .t else .f) := by
   cases r <;> rfl
 
 theorem Ty.wfL_cons {t : Ty} {ts : List Ty} (h : Ty.wfL (t :: ts) = true) : t.wf = true ∧ Ty.wfL ts = true := by
@@ -80,7 +80,7 @@ theorem equalsZip_ok {rec : EqRec} {fuel : Nat} (hr : RecOk rec fuel) : ∀ (ts 
   | t :: ts, x :: xs, y :: ys, hw, hp, hx, hy => by
     have hw' := Ty.wfL_cons hw
     simp only [Ty.plainL, Bool.and_eq_true] at hp
-    simp only [equalsZip, rawBZip, hr t x y hw'.1 hp.1 hx.1 hy.1, eqAccOf_boolVal]
+    simp only [equalsZip, rawBZip, hr t x y hw'.1 hp.1 hx.1 hy.1, eqAccOf_ok_boolVal]
     cases rawB t x y
     · rfl
     · simpa using equalsZip_ok hr ts xs ys hw'.2 hp.2 hx.2 hy.2
@@ -94,7 +94,7 @@ theorem equalsObj_ok {rec : EqRec} {fuel : Nat} (hr : RecOk rec fuel) : ∀ (ts 
   | t :: ts, x :: xs, y :: ys, hw, hp, hx, hy => by
     have hw' := Ty.wfL_cons hw
     simp only [Ty.plainL, Bool.and_eq_true] at hp
-    simp only [equalsObj, rawBZip, hr t x y hw'.1 hp.1 hx.1 hy.1, eqAccOf_boolVal]
+    simp only [equalsObj, rawBZip, hr t x y hw'.1 hp.1 hx.1 hy.1, eqAccOf_ok_boolVal]
     cases rawB t x y
     · rfl
     · simpa using equalsObj_ok hr ts xs ys hw'.2 hp.2 hx.2 hy.2
@@ -105,7 +105,7 @@ theorem equalsAll_ok {rec : EqRec} {fuel : Nat} (hr : RecOk rec fuel) (e : Ty) (
   | [], _, _, _ => by simp [equalsAll, rawBAll]
   | _ :: _, [], _, _ => by simp [equalsAll, rawBAll]
   | x :: xs, y :: ys, hx, hy => by
-    simp only [equalsAll, rawBAll, hr e x y hw hp hx.1 hy.1, eqAccOf_boolVal]
+    simp only [equalsAll, rawBAll, hr e x y hw hp hx.1 hy.1, eqAccOf_ok_boolVal]
     cases rawB e x y
     · rfl
     · simpa using equalsAll_ok hr e hw hp xs ys hx.2 hy.2
@@ -121,7 +121,7 @@ theorem equalsMap_ok {rec : EqRec} {fuel : Nat} (hr : RecOk rec fuel) (e : Ty) (
     cases hl : lookupKey k ky ys with
     | none => rfl
     | some y =>
-      simp only [hr e x y hw hp hx.1 (good_of_lookupKey hl hy), eqAccOf_boolVal]
+      simp only [hr e x y hw hp hx.1 (good_of_lookupKey hl hy), eqAccOf_ok_boolVal]
       by_cases h : rawB e x y = true
       · simp only [h, if_true, Bool.true_and]
         exact equalsMap_ok hr e hw hp ky ys hy ks xs hx.2
@@ -189,49 +189,49 @@ theorem equalsFuel_ok : ∀ fuel : Nat, RecOk (equalsFuel fuel) fuel
     cases x with
     | unk _ => simp [Payload.whollyKnown] at kx
     | marked _ _ => simp [Payload.containsMarked] at mx
-    | bad _ => simp [Payload.wf] at wx
-    | caps => cases t <;> simp [Payload.wf] at wx; simp [Ty.plain] at hp
-    | sset _ _ => cases t <;> simp [Payload.wf] at wx; simp [Ty.plain] at hp
+    | bad _ => simp [Payload.shaped] at wx
+    | caps => cases t <;> simp [Payload.shaped] at wx; simp [Ty.plain] at hp
+    | sset _ _ => cases t <;> simp [Payload.shaped] at wx; simp [Ty.plain] at hp
     | null =>
       cases y with
       | unk _ => simp [Payload.whollyKnown] at ky
       | marked _ _ => simp [Payload.containsMarked] at my
-      | _ => (simp only [equalsFuel]; rw [equalsPre_known _ _ _ _ rfl rfl]; simp [Payload.isNull, Payload.unmark1, rawB])
+      | _ => (simp only [equalsFuel]; rw [equalsPre_of_known _ _ _ _ rfl rfl]; simp [Payload.isNull, Payload.unmark1, rawB])
     | b v =>
-      simp only [Payload.wf, Ty.isBool_iff] at wx
+      simp only [Payload.shaped, Ty.isBool_iff] at wx
       subst wx
-      cases y <;> simp [Payload.wf, Ty.isBool, Ty.isNumber, Ty.isString, Payload.whollyKnown, Payload.containsMarked] at wy ky my
-      · (simp only [equalsFuel]; rw [equalsPre_known _ _ _ _ rfl rfl]; simp [Payload.isNull, Payload.unmark1, rawB])
-      · (simp only [equalsFuel]; rw [equalsPre_known _ _ _ _ rfl rfl]; simp [Payload.isNull, Payload.unmark1, rawB,
+      cases y <;> simp [Payload.shaped, Ty.isBool, Ty.isNumber, Ty.isString, Payload.whollyKnown, Payload.containsMarked] at wy ky my
+      · (simp only [equalsFuel]; rw [equalsPre_of_known _ _ _ _ rfl rfl]; simp [Payload.isNull, Payload.unmark1, rawB])
+      · (simp only [equalsFuel]; rw [equalsPre_of_known _ _ _ _ rfl rfl]; simp [Payload.isNull, Payload.unmark1, rawB,
           hasWhollyKnownType, Ty.equals])
     | n v =>
-      simp only [Payload.wf, Ty.isNumber_iff] at wx
+      simp only [Payload.shaped, Ty.isNumber_iff] at wx
       subst wx
-      cases y <;> simp [Payload.wf, Ty.isBool, Ty.isNumber, Ty.isString, Payload.whollyKnown, Payload.containsMarked] at wy ky my
-      · (simp only [equalsFuel]; rw [equalsPre_known _ _ _ _ rfl rfl]; simp [Payload.isNull, Payload.unmark1, rawB])
-      · (simp only [equalsFuel]; rw [equalsPre_known _ _ _ _ rfl rfl]; simp [Payload.isNull, Payload.unmark1, rawB,
+      cases y <;> simp [Payload.shaped, Ty.isBool, Ty.isNumber, Ty.isString, Payload.whollyKnown, Payload.containsMarked] at wy ky my
+      · (simp only [equalsFuel]; rw [equalsPre_of_known _ _ _ _ rfl rfl]; simp [Payload.isNull, Payload.unmark1, rawB])
+      · (simp only [equalsFuel]; rw [equalsPre_of_known _ _ _ _ rfl rfl]; simp [Payload.isNull, Payload.unmark1, rawB,
           hasWhollyKnownType, Ty.equals])
     | s v =>
-      simp only [Payload.wf, Ty.isString_iff] at wx
+      simp only [Payload.shaped, Ty.isString_iff] at wx
       subst wx
-      cases y <;> simp [Payload.wf, Ty.isBool, Ty.isNumber, Ty.isString, Payload.whollyKnown, Payload.containsMarked] at wy ky my
-      · (simp only [equalsFuel]; rw [equalsPre_known _ _ _ _ rfl rfl]; simp [Payload.isNull, Payload.unmark1, rawB])
-      · (simp only [equalsFuel]; rw [equalsPre_known _ _ _ _ rfl rfl]; simp [Payload.isNull, Payload.unmark1, rawB,
+      cases y <;> simp [Payload.shaped, Ty.isBool, Ty.isNumber, Ty.isString, Payload.whollyKnown, Payload.containsMarked] at wy ky my
+      · (simp only [equalsFuel]; rw [equalsPre_of_known _ _ _ _ rfl rfl]; simp [Payload.isNull, Payload.unmark1, rawB])
+      · (simp only [equalsFuel]; rw [equalsPre_of_known _ _ _ _ rfl rfl]; simp [Payload.isNull, Payload.unmark1, rawB,
           hasWhollyKnownType, Ty.equals])
     | seq xs =>
       simp only [Payload.whollyKnown, Payload.containsMarked, Payload.depth] at kx mx dx
-      cases t <;> simp [Payload.wf] at wx
+      cases t <;> simp [Payload.shaped] at wx
       case list e =>
         simp only [Ty.plain] at hp
         simp only [Ty.wf] at hw
-        cases y <;> simp [Payload.wf, Ty.isBool, Ty.isNumber, Ty.isString, Payload.whollyKnown, Payload.containsMarked] at wy ky my
-        · (simp only [equalsFuel]; rw [equalsPre_known _ _ _ _ rfl rfl]; simp [Payload.isNull, Payload.unmark1, rawB])
+        cases y <;> simp [Payload.shaped, Ty.isBool, Ty.isNumber, Ty.isString, Payload.whollyKnown, Payload.containsMarked] at wy ky my
+        · (simp only [equalsFuel]; rw [equalsPre_of_known _ _ _ _ rfl rfl]; simp [Payload.isNull, Payload.unmark1, rawB])
         · rename_i ys
           simp only [Payload.depth] at dy
           have gx := goodAll_of (fuel := fuel) wx kx mx (by omega)
           have gy := goodAll_of (fuel := fuel) wy ky my (by omega)
           simp only [equalsFuel]
-          rw [equalsPre_known _ _ _ _ rfl rfl]
+          rw [equalsPre_of_known _ _ _ _ rfl rfl]
           simp only [Payload.isNull, Payload.unmark1, rawB, Bool.and_self, Bool.or_self, Bool.false_eq_true, if_false,
             hasWhollyKnownType, hwktAll_of_known _ _ kx, hwktAll_of_known _ _ ky, hself,
             equalsAll_ok ih e hw hp xs ys gx gy]
@@ -241,14 +241,14 @@ theorem equalsFuel_ok : ∀ fuel : Nat, RecOk (equalsFuel fuel) fuel
       case tuple ts =>
         simp only [Ty.plain] at hp
         simp only [Ty.wf] at hw
-        cases y <;> simp [Payload.wf, Ty.isBool, Ty.isNumber, Ty.isString, Payload.whollyKnown, Payload.containsMarked] at wy ky my
-        · (simp only [equalsFuel]; rw [equalsPre_known _ _ _ _ rfl rfl]; simp [Payload.isNull, Payload.unmark1, rawB])
+        cases y <;> simp [Payload.shaped, Ty.isBool, Ty.isNumber, Ty.isString, Payload.whollyKnown, Payload.containsMarked] at wy ky my
+        · (simp only [equalsFuel]; rw [equalsPre_of_known _ _ _ _ rfl rfl]; simp [Payload.isNull, Payload.unmark1, rawB])
         · rename_i ys
           simp only [Payload.depth] at dy
           have gx := goodZip_of (fuel := fuel) wx kx mx (by omega)
           have gy := goodZip_of (fuel := fuel) wy ky my (by omega)
           simp only [equalsFuel]
-          rw [equalsPre_known _ _ _ _ rfl rfl]
+          rw [equalsPre_of_known _ _ _ _ rfl rfl]
           simp only [Payload.isNull, Payload.unmark1, rawB, Bool.and_self, Bool.or_self, Bool.false_eq_true, if_false,
             hasWhollyKnownType, hwktZip_of_known _ _ kx, hwktZip_of_known _ _ ky, hself,
             equalsZip_ok ih ts xs ys hw hp gx gy]
@@ -256,18 +256,18 @@ theorem equalsFuel_ok : ∀ fuel : Nat, RecOk (equalsFuel fuel) fuel
           cases rawBZip ts xs ys <;> rfl
     | smap kxs xs =>
       simp only [Payload.whollyKnown, Payload.containsMarked, Payload.depth] at kx mx dx
-      cases t <;> simp [Payload.wf] at wx
+      cases t <;> simp [Payload.shaped] at wx
       case map e =>
         simp only [Ty.plain] at hp
         simp only [Ty.wf] at hw
-        cases y <;> simp [Payload.wf, Ty.isBool, Ty.isNumber, Ty.isString, Payload.whollyKnown, Payload.containsMarked] at wy ky my
-        · (simp only [equalsFuel]; rw [equalsPre_known _ _ _ _ rfl rfl]; simp [Payload.isNull, Payload.unmark1, rawB])
+        cases y <;> simp [Payload.shaped, Ty.isBool, Ty.isNumber, Ty.isString, Payload.whollyKnown, Payload.containsMarked] at wy ky my
+        · (simp only [equalsFuel]; rw [equalsPre_of_known _ _ _ _ rfl rfl]; simp [Payload.isNull, Payload.unmark1, rawB])
         · rename_i kys ys
           simp only [Payload.depth] at dy
           have gx := goodAll_of (fuel := fuel) wx.2 kx mx (by omega)
           have gy := goodAll_of (fuel := fuel) wy.2 ky my (by omega)
           simp only [equalsFuel]
-          rw [equalsPre_known _ _ _ _ rfl rfl]
+          rw [equalsPre_of_known _ _ _ _ rfl rfl]
           simp only [Payload.isNull, Payload.unmark1, rawB, Bool.and_self, Bool.or_self, Bool.false_eq_true, if_false,
             hasWhollyKnownType, hwktAll_of_known _ _ kx, hwktAll_of_known _ _ ky, hself,
             equalsMap_ok ih e hw hp kys ys gy kxs xs gx]
@@ -277,15 +277,15 @@ theorem equalsFuel_ok : ∀ fuel : Nat, RecOk (equalsFuel fuel) fuel
       case object ns ts os =>
         simp only [Ty.plain] at hp
         simp only [Ty.wf, Bool.and_eq_true] at hw
-        cases y <;> simp [Payload.wf, Ty.isBool, Ty.isNumber, Ty.isString, Payload.whollyKnown, Payload.containsMarked] at wy ky my
-        · (simp only [equalsFuel]; rw [equalsPre_known _ _ _ _ rfl rfl]; simp [Payload.isNull, Payload.unmark1, rawB])
+        cases y <;> simp [Payload.shaped, Ty.isBool, Ty.isNumber, Ty.isString, Payload.whollyKnown, Payload.containsMarked] at wy ky my
+        · (simp only [equalsFuel]; rw [equalsPre_of_known _ _ _ _ rfl rfl]; simp [Payload.isNull, Payload.unmark1, rawB])
         · rename_i kys ys
           simp only [Payload.depth] at dy
           have gx := goodZip_of (fuel := fuel) wx.2 kx mx (by omega)
           have gy := goodZip_of (fuel := fuel) wy.2 ky my (by omega)
           have hself' := hself
           simp only [equalsFuel]
-          rw [equalsPre_known _ _ _ _ rfl rfl]
+          rw [equalsPre_of_known _ _ _ _ rfl rfl]
           simp only [Payload.isNull, Payload.unmark1, rawB, Bool.and_self, Bool.or_self, Bool.false_eq_true, if_false,
             hasWhollyKnownType, hwktZip_of_known _ _ kx, hwktZip_of_known _ _ ky, hself',
             equalsObj_ok ih ts xs ys hw.2 hp gx gy]
